@@ -127,7 +127,12 @@ def run(chk):
             chk.violation("C20.record", st, "for cb in self: ... await ctx.__aenter__(); self._exits.append(ctx)", "", "contexts are not started in registration order / recorded per iteration")
     # ---- exits -----------------------------------------------------------------------------------------------------
     loops = [f for f in ast.walk(cu.node) if isinstance(f, (ast.For, ast.While))]
-    consuming = bool(loops) and isinstance(loops[0], ast.While) and norm.raw(loops[0].test) == "self._exits" and bool(list(M.find(loops[0], "$I = self._exits.pop()")))
+    # the list is named by what it is, not by how it is spelled: a local bound once to `self._exits` is the same list (C20.exits owners: nothing rebinds it)
+    def _is_exits(e):
+        return norm.text(e, loops[0]) == "self._exits"
+    consuming = bool(loops) and isinstance(loops[0], ast.While) and _is_exits(loops[0].test) and any(
+        isinstance(a, (ast.Assign, ast.AnnAssign, ast.NamedExpr)) and isinstance(a.value, ast.Call) and isinstance(a.value.func, ast.Attribute) and a.value.func.attr == "pop"
+        and not a.value.args and not a.value.keywords and _is_exits(a.value.func.value) for a in ast.walk(loops[0]))
     if loops and isinstance(loops[0], ast.For) and norm.raw(loops[0].iter) == "reversed(self._exits)":
         chk.ok("C20.exits", loops[0], "exits run in reverse order of startup")
     elif consuming:
